@@ -20,6 +20,7 @@
      regular polygons NO two placed copies - any pair, any lattice translate - share an interior point. *)
 From Coq Require Import ZArith List Bool Reals Lra. Import ListNotations.
 From PV Require Import Num NumR model.Geom proofs.LatticeFacts proofs.SiteFacts proofs.OverlapFacts proofs.ConvexFacts proofs.ShapeFacts proofs.EnclosedFacts proofs.PackingFacts proofs.PolygonFacts proofs.RadiusFacts proofs.PolygonPacking proofs.NoNesting.
+From PV Require Import gen.GenFns proofs.SourceFacts.
 
 Theorem C01_scored_disc_packing_has_no_overlap :
   forall (st : pstateR) (l : list discR), wf_state st -> rigid_inputs st -> p_shape NumR st =
@@ -235,4 +236,30 @@ Theorem C01_every_copy_is_a_placement :
     siteR), In sym (p_syms NumR st) /\ In s (p_sites NumR st) /\ p = placement sym s.
 Proof. exact rel_members. Qed.
 Print Assumptions C01_every_copy_is_a_placement.
+
+
+Theorem C01_density_precheck_is_source :
+  forall (NN : Num) (st : pstate NN), gen_density_precheck NN st = density_precheck NN st.
+Proof. exact density_precheck_is_source. Qed.
+Print Assumptions C01_density_precheck_is_source.
+
+Theorem C01_shells_is_source :
+  forall (NN : Num) (st : pstate NN), gen_shells NN st = shells_of NN st.
+Proof. exact shells_is_source. Qed.
+Print Assumptions C01_shells_is_source.
+
+Theorem C01_radius_sq_is_source :
+  forall (NN : Num) (st : pstate NN), gen_radius_sq NN st = sq NN (p_radius NN st * n2)%num.
+Proof. exact radius_sq_is_source. Qed.
+Print Assumptions C01_radius_sq_is_source.
+
+Theorem C01_packed_score_is_source :
+  forall (NN : Num) (st : pstate NN), gen_packed_score NN st = packed_score NN st.
+Proof. exact packed_score_is_source. Qed.
+Print Assumptions C01_packed_score_is_source.
+
+Theorem C01_source_translated :
+  gen_fns_problem = String.EmptyString.
+Proof. exact source_translated. Qed.
+Print Assumptions C01_source_translated.
 
